@@ -22,3 +22,37 @@ def _combine_masks(masks):
         mask = jnp.logical_and(mask, m.reshape(_shape))
     return np.array(mask)
 
+
+def create_state_choice_space(model, period, *, is_last_period, jit_filter):
+    vi = model.variable_info
+    if is_last_period:
+        vi = vi.query('~is_auxiliary')
+    has_sparse_states = (vi.is_sparse & vi.is_state).any()
+    has_sparse_vars = vi.is_sparse.any()
+    _value_grid = _create_value_grid(grids=model.grids, subset=vi.query('is_dense & ~(is_choice & is_continuous)').index.tolist())
+    if has_sparse_vars:
+        _filter_mask = create_filter_mask(model=model, subset=vi.query('is_sparse').index.tolist(), fixed_inputs={'_period': period}, jit_filter=jit_filter)
+        _combination_grid = create_combination_grid(grids=model.grids, masks=_filter_mask, subset=vi.query('is_sparse').index.tolist())
+    else:
+        _combination_grid = {}
+    state_choice_space = Space(sparse_vars=_combination_grid, dense_vars=_value_grid)
+    if has_sparse_vars:
+        _state_indexer, _, choice_segments = create_indexers_and_segments(mask=_filter_mask, n_sparse_states=len(vi.query('is_sparse & is_state')))
+    else:
+        _state_indexer = None
+        choice_segments = None
+    state_indexers = {'state_indexer': _state_indexer} if has_sparse_states else {}
+    axis_names = vi.query('is_dense & is_state').index.tolist()
+    if has_sparse_states:
+        axis_names = ['state_index', *axis_names]
+    _discrete_states = set(vi.query('is_discrete & is_state').index.tolist())
+    lookup_info = {k: v for k, v in model.gridspecs.items() if k in _discrete_states}
+    _cont_states = set(vi.query('is_continuous & is_state').index.tolist())
+    interpolation_info = {k: v for k, v in model.gridspecs.items() if k in _cont_states}
+    if has_sparse_states:
+        indexer_infos = [IndexerInfo(axis_names=vi.query('is_sparse & is_state').index.tolist(), name='state_indexer', out_name='state_index')]
+    else:
+        indexer_infos = []
+    space_info = SpaceInfo(axis_names=axis_names, lookup_info=lookup_info, interpolation_info=interpolation_info, indexer_infos=indexer_infos)
+    return (state_choice_space, space_info, state_indexers, choice_segments)
+
